@@ -62,7 +62,7 @@ def generate(seed, tier):
         ops.append(["rule_step", int(rng.random() < 0.6), 0])
     two = mode == "step" and rule["kind"] in ("mwkr_pair", "score", "tie") and rng.random() < 0.4
     cfg = {"instance": spec, "rule": rule, "chooser": rng.choice(["first", "random"]), "chooser_how": rng.choice(["str", "enum", "callable"]),
-           "filter": filt, "mode": mode, "two_dispatchers": two, "refused_observer_first": rng.random() < 0.08, "restricted_observers_first": rng.random() < 0.2, "call_form": rng.choice(["call", "call", "solve", "solve_with_dispatcher", "twice"]),
+           "filter": filt, "mode": mode, "two_dispatchers": two, "refused_observer_first": rng.random() < 0.08, "restricted_observers_first": rng.random() < 0.2, "call_form": rng.choice(["call", "call", "solve", "solve_with_dispatcher", "twice", "reset_and_again"]),
            "clock_seed": rng.randrange(1 << 30), "other_seed": rng.randrange(1 << 30)}
     if two:
         # a second dispatcher over a DIFFERENT instance shares the solver (and, for the observer-based rule, the
@@ -168,7 +168,14 @@ def build_solver(cfg):
         # a user's own solver class (defined inside a function, as in a notebook or a test): its class name is
         # "MySolver" wherever it was defined
         class MySolver(DispatchingRuleSolver):
-            pass
+            def solve(self, instance, dispatcher=None):
+                if dispatcher is not None or cfg.get("other_seed", 0) % 2:
+                    return super().solve(instance, dispatcher)
+                # a wrapping solver: it delegates to another solver object by calling it (the returned schedule
+                # already carries that solver's metadata) and hands the result on
+                inner = DispatchingRuleSolver(dispatching_rule=self.dispatching_rule, machine_chooser=self.machine_chooser,
+                                              ready_operations_filter=self.ready_operations_filter)
+                return inner(instance)
 
         return MySolver(**kw)
     return DispatchingRuleSolver(**kw)
@@ -428,6 +435,15 @@ def execute_call(case, ctx):
                         orig_step(dd)
                 cap_box[0] = max(1, cap_box[0] - 0)  # the cap still bounds the remaining steps
                 sched = solver.solve(inst, dd)
+            elif form == "reset_and_again":
+                # one dispatcher solved, reset and solved again by the same solver (a second run of an experiment)
+                from job_shop_lib.dispatching import Dispatcher
+
+                dd = Dispatcher(inst, ready_operations_filter=solver.ready_operations_filter)
+                solver.solve(inst, dd)
+                dd.reset()
+                calls["n"] = 0
+                sched = solver.solve(inst, dd)
             elif form == "twice":
                 # the same solver object on another instance first (a solver is reusable)
                 other = build({"jobs": [[[[0], 2], [[1], 1]], [[[1], 3]], [[[0], 1]]], "name": "other"})
@@ -453,7 +469,7 @@ def execute_call(case, ctx):
     errs = check_feasible(jobs, lists)
     ctx.check(not errs and sched.is_complete(), "call_returns_complete_feasible_schedule", lambda: f"solver(instance): complete={sched.is_complete()} errors={errs[:3]}")
     md = sched.metadata
-    if form in ("solve", "solve_with_dispatcher"):
+    if form in ("solve", "solve_with_dispatcher", "reset_and_again"):
         ctx.sim_time = sched.makespan()
         return  # solve() promises the schedule, the metadata is written by __call__
     et = md.get("elapsed_time")
